@@ -123,6 +123,8 @@ class Explorer:
         self.types.default_modules += [m for m in ('spec.c06', 'spec.c07', 'spec.c19x', 'spec.c02x') if index.module(m) is not None]
         # searched last: private classes of the format analysis (`_FormatInferInstance`) and the stand-in `DefUseM` of spec/c14x_refine.py as Lemma parameter types
         self.types.default_modules += [m for m in ('fpy2.analysis.format_infer.analysis', 'spec.c14x_refine') if index.module(m) is not None]
+        # C13y: probes / stand-ins of spec/c13y.py (SeedProbe, FixProbe ...), searched last
+        self.types.default_modules += [m for m in ('fpy2.analysis.array_size', 'fpy2.analysis.value_class', 'spec.c13y') if index.module(m) is not None]
         self.intrinsics = Intrinsics(self)
         self.global_cache = {}
         self.tags = Tags()
